@@ -128,6 +128,7 @@ function ser(v, depth, seen) {
 // absent, the evaluation itself is the observation. H = helper object with probes.
 // Observation per code = string.
 let sharedCtx = null;
+const callScript = new vm.Script('globalThis.__call()');
 function newCtx() {
   const sandbox = { console: { log() {}, error() {}, warn() {}, info() {}, debug() {} } };
   const ctx = vm.createContext(sandbox);
@@ -184,12 +185,12 @@ function runOne(code, c) {
   g.__H = makeH(evalLog);
   try {
     if (mode === 'cjs') {
-      const fn = vm.runInContext('(function(exports,require,module){' + code + '\n})', ctx, { timeout: 2000 });
+      const fn = vm.runInContext('(function(exports,require,module){' + code + '\n})', ctx);
       const module = { exports: {} };
       fn.call(module.exports, module.exports, function (n) { throw new Error('require ' + n); }, module);
       out.push('exports=' + ser(module.exports));
     } else {
-      const r = vm.runInContext(code, ctx, { timeout: 2000 });
+      const r = vm.runInContext(code, ctx);
       if (c.completion) out.push('completion=' + ser(r));
     }
   } catch (e) {
@@ -207,7 +208,8 @@ function runOne(code, c) {
         const r = f.apply(mkU('T', log), [H].concat(args));
         res = 'ret=' + ser(r);
       } catch (e) {
-        res = 'throw=' + (e instanceof Object && !(e instanceof Error) ? ser(e) : errClass(e));
+        if (e && e.code === 'ERR_SCRIPT_EXECUTION_TIMEOUT') res = 'TIMEOUT';
+        else res = 'throw=' + (e instanceof Object && !(e instanceof Error) ? ser(e) : errClass(e));
       }
       out.push(log.join(',') + '|' + res);
     }
@@ -223,7 +225,7 @@ async function runOneAsync(code, c) {
   const evalLog = [];
   g.__H = makeH(evalLog);
   try {
-    vm.runInContext(code, ctx, { timeout: 2000 });
+    vm.runInContext(code, ctx);
   } catch (e) {
     out.push('eval-throw:' + errClass(e));
   }
